@@ -285,6 +285,23 @@ def portAnswer (lang : Lang) (q : Quirks) (cur : Cursor) (op : String) (args : L
     some s!"{steps} {String.intercalate "," (first :: acc.reverse)}"
   | _, _ => none
 
+mutual
+  /-- Condition of finding 11 (`child-by-field-enters-visible-child`): on the way of the search for field `f`
+  below `t` an INHERITED field-map entry points at a child that is visible (or aliased) in this tree — the
+  generator's table says "search inside the hidden rule at this position", but the unit reduction to a visible
+  alternative of that rule was eliminated, and the C code searches inside the visible child. -/
+  def inhOnVisible (lang : Lang) (f : Nat) : Tree → Bool
+    | .mk d kids => inhOnVisibleKids lang f d.productionId (fieldEntries lang d.productionId f) kids 0
+  def inhOnVisibleKids (lang : Lang) (f pid : Nat) (es : List FieldEntry) : List Tree → Nat → Bool
+    | [], _ => false
+    | c :: rest, si =>
+      if c.data.extra then inhOnVisibleKids lang f pid es rest si
+      else
+        (match entryAt es si with
+         | some m => m.inherited && (if c.data.visible || lang.aliasAt pid si != 0 then c.kids.length > 0 else inhOnVisible lang f c)
+         | none => false) || inhOnVisibleKids lang f pid es rest (si + 1)
+end
+
 def judgeLine (c : Ctx) (root : Tree) (rootId : Nat) (r : Res) (line : String) : Res :=
   match line.splitOn " " with
   | "o" :: idx :: op :: rest =>
@@ -424,6 +441,7 @@ def judgeLine (c : Ctx) (root : Tree) (rootId : Nat) (r : Res) (line : String) :
              then "sx:hidden-missing-printed" else "sx")
           else if !explained && navPort.isSome then op ++ ":unexplained"
           else if (op == "cbf" || op == "cbn") && answer == "-" && info.raw.data.symbol == symError then "cbf:error-parent-has-no-field-map"
+          else if (op == "cbf" || op == "cbn") && inhOnVisible c.lang (natOf (args.headD "0")) info.raw then "cbf:inherited-entry-on-visible-child"
           else if (op == "ns" || op == "nns") && zeroWidth then op ++ ":zero-width-sibling-skipped"
           else if (op == "ps" || op == "pns") && c.ft.sb k == c.ft.eb k then op ++ ":zero-width-self"
           else if (op == "dbr" || op == "ndbr" || op == "dpr" || op == "ndpr") &&
@@ -460,6 +478,26 @@ mutual
   def maxFanoutL : List Tree → Nat
     | [] => 0
     | k :: rest => max (maxFanout k) (maxFanoutL rest)
+end
+
+mutual
+  /-- COVERAGE measure for `ts_node_child_by_field_id` (not used by any theorem or verdict): does the scan for
+  field `f` below `t` pass an INHERITED field-map entry whose hidden child carries no `f` in this tree before it
+  reaches the child that does — at `t` itself or inside the hidden child the search continues in?  Only on such
+  (node, field) pairs does the "not found inside this hidden child: go on with the next entry" branch of the C
+  function decide the answer; the check demands that the explored trees contain some. -/
+  def cbfPassesEmpty (lang : Lang) (f : Nat) : Tree → Bool
+    | .mk d kids => cbfPassesEmptyKids lang f (fieldEntries lang d.productionId f) kids 0 false
+  def cbfPassesEmptyKids (lang : Lang) (f : Nat) (es : List FieldEntry) : List Tree → Nat → Bool → Bool
+    | [], _, _ => false
+    | c :: rest, si, saw =>
+      if c.data.extra then cbfPassesEmptyKids lang f es rest si saw
+      else match entryAt es si with
+        | some m =>
+          if !m.inherited then saw
+          else if (enumF lang c []).any (fun x => hasF f x.2.2) then saw || cbfPassesEmpty lang f c
+          else cbfPassesEmptyKids lang f es rest (si + 1) true
+        | none => cbfPassesEmptyKids lang f es rest (si + 1) saw
 end
 
 end TsVerif.C06
